@@ -268,7 +268,7 @@ var checks = []Check{
 		Stub:         []string{vrfStub, "block author = harness code (fallback and ticket seals through the stand-in, real Ed25519 for disputes); it is not an oracle", "multi-node = sequential incarnations of the process-wide chain-state singleton separated by SetState"},
 		Assumptions:  []string{"the VRF is a stand-in: nothing about Bandersnatch is decided and ticket identifiers are stand-in outputs", "one chain state per process: the clean reference node and the node under test are sequential incarnations", "blocks come from the harness author: chains of 3-30 (thorough 60) blocks over several epochs with tickets, preimages, disputes (also against pending reports), assurances, guarantees (current and previous rotation, dependencies between packages) and the accumulation of the reports that become available by real PVM runs of small generated service programs (fetch, write, checkpoint, assign, transfer, forget + solicit of one preimage that thereby runs through its whole life cycle, new - services born on chain -, yield)"},
 		LevelText:    "seeded exploration across epoch boundaries with a reference model; evidence, not proof. Stage A: guarantor / assurer / core / refinement / accumulation parts are exercised only with empty inputs",
-		LevelNote:    "",
+		LevelNote:    "the accumulation gas figure of the service statistics is taken from the implementation (the service programs are not metered independently): only \"non-zero iff the service accumulated\" is judged for it; per-block references judge the states of the clean import path, what forks and refusals leave behind is the C26 check",
 		Technique:    "deterministic simulation of the node under seeded block histories with fault injection (invalid blocks rejected at chosen STF stages, retries, children of rejected blocks, forks, restarts from exported state), reference-node and reference-model oracles, tape shrinking + fresh-process replay",
 		DesignRef:    "DESIGN.md §4 H4, Appendix A",
 		ExpectProbes: []string{"probe:statistics_epoch_rollover", "probe:guarantor_credited", "probe:core_record_nonzero", "probe:service_accumulated_work", "probe:service_refinement_recorded", "probe:report_with_large_counts"},
